@@ -160,3 +160,138 @@ def session_cases(ctx, cases, meta):
                                           'request in unsupported KMIP %s was not refused with InvalidMessage by the session' % c16.vstr(v))
     finally:
         sc.close()
+    mixed_version_cases(ctx, cases, meta)
+
+
+# ====================================================================================== several versions on ONE connection
+# tag -> specification version that introduced the field (by tag, anywhere in a message)
+def _later_tags():
+    import c16_fields
+    T = enums.Tags
+    out = {T[n].value: (n, v) for n, v in c16_fields.SPEC_FIELD_MIN.items()
+           if n not in ('ATTESTATION_TYPE', 'EXTENSION_INFORMATION')}      # also legitimate inside other 1.0 structures? no: keep strict ones only
+    out[T.ATTESTATION_TYPE.value] = ('ATTESTATION_TYPE', (1, 2))
+    out[T.EXTENSION_INFORMATION.value] = ('EXTENSION_INFORMATION', (1, 1))
+    out[T.SENSITIVE.value] = ('SENSITIVE', (1, 4))
+    out[T.FRESH.value] = ('FRESH', (1, 1))
+    return out
+
+
+# tags the 2.0 specification no longer has in any message
+REMOVED_20 = ('TEMPLATE_ATTRIBUTE', 'COMMON_TEMPLATE_ATTRIBUTE', 'PRIVATE_KEY_TEMPLATE_ATTRIBUTE', 'PUBLIC_KEY_TEMPLATE_ATTRIBUTE',
+              'TEMPLATE', 'OPERATION_POLICY_NAME', 'CERTIFICATE_IDENTIFIER', 'CERTIFICATE_SUBJECT', 'CERTIFICATE_ISSUER')
+# direct children of a response payload that belong to one layout only: operation value -> (1.x only, 2.0 only)
+PAYLOAD_LAYOUT = {OP.GET_ATTRIBUTES.value: ('ATTRIBUTE', 'ATTRIBUTES'), OP.GET_ATTRIBUTE_LIST.value: ('ATTRIBUTE_NAME', 'ATTRIBUTE_REFERENCE')}
+
+
+def walk(item):
+    yield item
+    if item['type'] == 1:
+        for c in item['value']:
+            for x in walk(c):
+                yield x
+
+
+def answer_problems(sent, v):
+    """Direct oracle for one answer: is it in the version of its request?  -> (problems, layout flags per operation)."""
+    import ttlvparse
+    T = enums.Tags
+    probs, summ = ttlvparse.envelope_problems(sent, v)
+    probs = [p for p in probs if 'version' in p or 'malformed' in p or 'ResponseMessage' in p or 'header' in p]
+    layouts = []
+    try:
+        msg, _ = ttlvparse.parse(bytes(sent))
+    except ttlvparse.Malformed:
+        return probs or ['malformed TTLV'], layouts
+    later = _later_tags()
+    for it in walk(msg):
+        if it['tag'] in later and later[it['tag']][1] > v:
+            probs.append('contains %s (tag %#x), introduced in KMIP %d.%d' % (later[it['tag']][0], it['tag'], later[it['tag']][1][0], later[it['tag']][1][1]))
+        if v >= (2, 0):
+            for n in REMOVED_20:
+                if it['tag'] == T[n].value:
+                    probs.append('contains %s (tag %#x), which KMIP 2.0 no longer has' % (n, it['tag']))
+    for bi in ttlvparse.children(msg, ttlvparse.T_BATCH_ITEM):
+        ops = ttlvparse.children(bi, ttlvparse.T_OPERATION)
+        pls = ttlvparse.children(bi, ttlvparse.T_RESPONSE_PAYLOAD)
+        if not ops or not pls or ops[0]['value'] not in PAYLOAD_LAYOUT:
+            continue
+        old, new = PAYLOAD_LAYOUT[ops[0]['value']]
+        tags = [c['tag'] for c in pls[0]['value']]
+        has_old, has_new = T[old].value in tags, T[new].value in tags
+        if has_old or has_new:
+            layouts.append((ops[0]['value'], has_new))
+        if v >= (2, 0) and has_old:
+            probs.append('%s response payload carries the KMIP 1.x item %s (tag %#x)' % (OP(ops[0]['value']).name, old, T[old].value))
+        if v < (2, 0) and has_new:
+            probs.append('%s response payload carries the KMIP 2.0 item %s (tag %#x)' % (OP(ops[0]['value']).name, new, T[new].value))
+    # the real decoder, the way a client speaking v uses it
+    try:
+        resp = messages.ResponseMessage()
+        resp.read(utils.BytearrayStream(bytes(sent)), kmip_version=kmip_version_of(v))
+        for b in resp.batch_items:
+            if b.result_status.value == enums.ResultStatus.SUCCESS and b.operation.value == OP.GET_ATTRIBUTES \
+                    and not b.response_payload.attributes:
+                probs.append('GET_ATTRIBUTES answer decodes under KMIP %d.%d without any attribute' % v)
+    except Exception as e:      # noqa
+        probs.append('does not decode under KMIP %d.%d with the library\'s own reader: %s' % (v[0], v[1], type(e).__name__))
+    return probs, layouts
+
+
+def mixed_version_cases(ctx, cases, meta):
+    """2-4 requests of DIFFERENT supported versions over ONE KmipSession; every answer must be in its request's version."""
+    import itertools
+    import c16
+    import sessdrv
+    quick = ctx.tier == 'quick'
+    rng = ctx.subrng('mixed-versions')
+    seqs = [list(p) for p in itertools.permutations(c16.SUPPORTED, 2)]
+    seqs += [rng.sample(c16.SUPPORTED, rng.choice((3, 4))) for _ in range(12 if quick else 150)]
+    seqs += [[(1, 2), (2, 0), (1, 2)], [(2, 0), (1, 0), (2, 0), (1, 4)], [(1, 0), (1, 1), (1, 2), (1, 3)]]
+    sc = c16.Scene(ctx)
+    eng = sc.eng
+    proxy = sessdrv.EngineProxy(eng)
+    flavours = [
+        lambda v: [sc.payload(OP.GET_ATTRIBUTES, v)],
+        lambda v: [sc.payload(OP.GET_ATTRIBUTE_LIST, v), sc.payload(OP.GET_ATTRIBUTES, v)],
+        lambda v: [sc.payload(OP.DISCOVER_VERSIONS, v)] if v >= (1, 1) else [sc.payload(OP.QUERY, v)],
+        lambda v: [sc.payload(OP.QUERY, v), sc.payload(OP.LOCATE, v), sc.payload(OP.GET, v), kdrv.get_attributes(sc.cert)],
+        lambda v: [kdrv.create(names=()), kdrv.register(), kdrv.get_attributes(sc.priv, ['Cryptographic Algorithm', 'State', 'Sensitive'])],
+    ]
+    nbad = 0
+    try:
+        for k, seq in enumerate(seqs):
+            picks = []
+            stream = b''
+            for j, v in enumerate(seq):
+                # the first request of a connection is a plain successful one half of the time (version negotiation style)
+                f = flavours[(k + j) % len(flavours)] if (j or k % 2) else flavours[2]
+                items = f(v)
+                picks.append([i[0].name for i in items])
+                stream += sessdrv.encode_request(eng.build(items, version=v, batch_option=enums.BatchErrorContinuationOption.CONTINUE), v)
+            obs, conn = sessdrv.run_spec(proxy, sessdrv.default_spec(stream, ts=eng.clock.t), dumps=False)
+            frames = obs['frames']
+            if len(frames) != len(seq):
+                ctx.violation({'class': 'answer-not-in-request-version', 'problem': 'answers != requests'},
+                              {'versions_on_one_connection': seq, 'operations': picks, 'answers': len(frames)},
+                              '%d requests on one connection got %d answers' % (len(seq), len(frames)))
+            for j, (v, fr) in enumerate(zip(seq, frames)):
+                sent = b''.join(fr['sent'])
+                probs, layouts = answer_problems(sent, v) if sent else (['no answer was sent'], [])
+                ctx.case_seen(('mixed', tuple(seq), j, tuple(picks[j])))
+                ctx.count('mixed.%s' % ('first' if j == 0 else 'later'))
+                for opv, two in layouts:
+                    cls = 'GetAttributesResponsePayload' if opv == OP.GET_ATTRIBUTES.value else 'GetAttributeListResponsePayload'
+                    tag = 'ATTRIBUTES' if opv == OP.GET_ATTRIBUTES.value else 'ATTRIBUTE_REFERENCE'
+                    cases.append('CFieldRead %s %s %s %s' % (cp.string(cls), cver(v), cp.string(tag), cp.boolean(two)))
+                    meta.append(('wire-layout', seq, j, cls))
+                if probs:
+                    nbad += 1
+                    ctx.violation({'class': 'answer-not-in-request-version', 'version': c16.vstr(v), 'position': 'first' if j == 0 else 'later'},
+                                  {'versions_on_one_connection': seq, 'operations_per_request': picks, 'request_index': j,
+                                   'request_version': v, 'problems': probs[:6], 'answer_hex': sent.hex()[:1200]},
+                                  'request %d of a connection carrying KMIP %s requests (KMIP %s, %s) was not answered in KMIP %s: %s' % (
+                                      j + 1, ', '.join(c16.vstr(x) for x in seq), c16.vstr(v), '+'.join(picks[j]), c16.vstr(v), probs[0]))
+    finally:
+        sc.close()
+    ctx.cov['mixed_version_connections'] = {'connections': len(seqs), 'answers_with_problems': nbad}
